@@ -9,6 +9,7 @@ mod concat;
 mod counter;
 mod traits;
 mod codec;
+mod cmp;
 
 #[global_allocator]
 static GLOBAL: alloc::Tracking = alloc::Tracking;
@@ -44,6 +45,7 @@ fn main() {
         "counter" => counter::run(&out, &tier, seed, &rest),
         "traits" => traits::run(&out, &tier, seed, &rest),
         "codec" => codec::run(&out, &tier, seed, &rest),
+        "cmp" => cmp::run(&out, &tier, seed, &rest),
         _ => { eprintln!("unknown driver {}", driver); std::process::exit(2); }
     }
 }
